@@ -73,6 +73,44 @@ pub open spec fn memo_post(dnf: Rc<Dnf>, is_map: bool, o: SemTypeContext, n: Sem
     }
 }
 
-// (`list_is_empty`, bdd.rs:543-583, is the same wrapper around the list decider; it stays OUT: its table is keyed by `Bdd`,
-// the key is made with `(**bdd).clone()`, and this Verus gives the `Clone` derived on an enum declared inside `verus!`
-// no specification and accepts none - the inserted key could not be related to the diagram. Bounded stand-in: `memo`.)
+// ---- the same wrapper around the list decider, `list_is_empty` (bdd.rs:543-583); the table is keyed by the diagram
+#[verifier::external_body]
+pub proof fn axiom_bdd_cmp()
+    ensures vstd::laws_cmp::obeys_cmp::<Bdd>()
+{}
+// R25: `(**X).clone()` on a diagram. T2 (assumed): the derived `Clone` on `Bdd` returns an equal diagram (this Verus gives
+// the `Clone` derived on an enum declared inside `verus!` no specification and accepts none)
+#[verifier::external_body]
+fn vclone_bdd(x: &Bdd) -> (r: Bdd)
+    ensures r == *x
+{ x.clone() }
+pub open spec fn lmemo_started(o: SemTypeContext, c: SemTypeContext, b: Bdd) -> bool {
+    c.pending_empty_checks == o.pending_empty_checks + 1
+    && c.list_memo@ == o.list_memo@.insert(b, BddMemoEmptyRef(MemoEmpty::Undefined))
+    && tables_of(c) == tables_of(o)
+}
+// R24: `bdd_every_result(B, P, N, list_formula_is_empty, C)` - a call that passes a function item where the callee takes
+// a function pointer (no such types in Verus) - is named `vlist_every(B, P, N, C)`; its body is that call. ASSUMED (R5):
+// the walk over the diagram (U7 proves the per-path function it applies) leaves the pending count, the entries of the
+// memo table it was started with and the definition tables as they were
+pub uninterp spec fn lie_res(b: Bdd, c: SemTypeContext) -> Result<IsEmptyStatus>;
+#[verifier::external_body]
+fn vlist_every(bdd: &Rc<Bdd>, pos: &Option<Rc<Conjunction>>, neg: &Option<Rc<Conjunction>>, builder: &mut SemTypeContext) -> (r: Result<IsEmptyStatus>)
+    ensures final(builder).pending_empty_checks == old(builder).pending_empty_checks,
+        memo_kept(old(builder).list_memo@, final(builder).list_memo@),
+        tables_of(*final(builder)) == tables_of(*old(builder)),
+        pos is None && neg is None ==> r == lie_res(**bdd, *old(builder)),
+{ unimplemented!() }
+pub open spec fn lmemo_post(b: Bdd, o: SemTypeContext, n: SemTypeContext, res: Result<IsEmptyStatus>) -> bool {
+    if o.list_memo@.contains_key(b) {
+        res == Ok::<IsEmptyStatus, Error>(memo_answer(o.list_memo@[b].0)) && n.list_memo@ == o.list_memo@
+    } else {
+        (exists|c: SemTypeContext| lmemo_started(o, c, b) && res == #[trigger] lie_res(b, c))
+        && (match res {
+            Ok(IsEmptyStatus::IsEmpty) => if o.pending_empty_checks > 0 { !n.list_memo@.contains_key(b) }
+                                          else { n.list_memo@.contains_key(b) && n.list_memo@[b].0 is True },
+            Ok(IsEmptyStatus::NotEmpty) => n.list_memo@.contains_key(b) && n.list_memo@[b].0 == MemoEmpty::False(IsEmptyStatus::NotEmpty),
+            Err(_) => !n.list_memo@.contains_key(b),
+        })
+    }
+}
